@@ -232,6 +232,17 @@ def tables_of(o):
     return o.dump_tables() if hasattr(o, "dump_tables") else o
 
 
+def stream_load(loader, f):
+    import tskit
+
+    kw = {}
+    if loader.endswith("skip_tables"):
+        kw["skip_tables"] = True
+    if loader.endswith("skip_ref"):
+        kw["skip_reference_sequence"] = True
+    return tskit.load(f, **kw) if loader.startswith("ts") else tskit.TableCollection.load(f, **kw)
+
+
 def check_streams(setname, loader, acc, tmp):
     import tskit
 
@@ -252,9 +263,9 @@ def check_streams(setname, loader, acc, tmp):
                 ok = True
                 for j, i in enumerate(hist):
                     try:
-                        back = tskit.load(f) if loader == "ts" else tskit.TableCollection.load(f)
+                        back = stream_load(loader, f)
                     except Exception as e:  # noqa
-                        if loader == "ts" and not hasattr(objs[i], "dump_tables"):
+                        if loader.startswith("ts") and not hasattr(objs[i], "dump_tables"):
                             # a collection that is not a valid tree sequence legitimately fails tskit.load
                             ok = False
                             break
@@ -262,7 +273,13 @@ def check_streams(setname, loader, acc, tmp):
                         ok = False
                         break
                     acc.count("transitions")
-                    if fingerprint(tables_of(back)) != fps[i]:
+                    if "skip" in loader:
+                        # only the stream bookkeeping is comparable on the skip paths
+                        if tables_of(back).sequence_length != tables_of(objs[i]).sequence_length:
+                            acc.fail("stream:wrong-object", f"load {j} of {list(hist)} (skip path): wrong object", case)
+                            ok = False
+                            break
+                    elif fingerprint(tables_of(back)) != fps[i]:
                         acc.fail("stream:wrong-object", f"load {j} of {list(hist)}: {diff(fps[i], fingerprint(tables_of(back)))}", case)
                         ok = False
                         break
@@ -273,7 +290,7 @@ def check_streams(setname, loader, acc, tmp):
                 if ok:
                     for _ in range(2):
                         try:
-                            tskit.load(f) if loader == "ts" else tskit.TableCollection.load(f)
+                            stream_load(loader, f)
                             acc.fail("stream:no-eof", "load past the end returned an object", case)
                         except EOFError:
                             pass
@@ -453,7 +470,7 @@ def shards(tier, seed):
     for k in range(n):
         specs.append(dict(kind="rt", k=k, n=n, tier=tier))
     for setname in ("A", "B"):
-        for loader in ("ts", "tc"):
+        for loader in ("ts", "tc", "tc_skip_tables", "tc_skip_ref", "ts_skip_tables"):
             specs.append(dict(kind="stream", set=setname, loader=loader))
     specs.append(dict(kind="eq"))
     specs.append(dict(kind="tsrt"))
